@@ -447,7 +447,7 @@ Definition chk_pst (ub : bool) (t : tree) (impl_ok : bool) (impl : list node) : 
         | Reject _ => negb impl_ok
         | _ => false end);
    match r with Ok _ => 0 | Reject _ => 1 | UB s => 100 + s | OutOfFuel => 3 end;
-   b2n (wf_idl t);
+   b2n (wf_idl (canon t));
    b2n (match d, r with
         | Ok a, Ok b => sx_eqb (sx_nodes a) (sx_nodes b)
         | Reject _, Reject _ => true
